@@ -26,9 +26,14 @@ def module_hashes(doc):
     """hash of the (folded, id-free) THIR of every function, grouped by evaluator module / utils"""
     F = Facts(doc)
     groups = {}
+    from ..tables import catinfo
+    cat = catinfo(F)
+    catname = cat["path"] if cat else "utils::operator_category::OperatorCategory"
     for f in F.fns:
         if not f.thir:
             continue
+        if catname in f.key or catname in (f.j.get("impl_self") or ""):
+            continue      # the category enum is cfg-dependent by design; it is compared as an order relation (category-order)
         k = f.evaluator or ("utils" if f.key.startswith("utils::") or "utils::" in f.key else "other")
         h = hashlib.sha256(json.dumps(canon(T.fold(f.thir)), sort_keys=True).encode()).hexdigest()
         groups.setdefault(k, {})[f.key] = h
@@ -36,7 +41,7 @@ def module_hashes(doc):
     for a in doc["adts"]:
         m = re.match(r"^(eval_[a-z0-9]+)::", a["path"])
         k = m.group(1) if m else "utils"
-        if a["path"].endswith("OperatorCategory"):
+        if a["path"] == catname:
             continue
         groups.setdefault(k, {})["adt:" + a["path"]] = hashlib.sha256(json.dumps(a["variants"]).encode()).hexdigest()
     return groups
@@ -125,7 +130,7 @@ def _summarise_one(arg):
     fs, d = arg
     if d is None:
         return None
-    sp = os.path.join(d, "c17summary.v3.json")
+    sp = os.path.join(d, "c17summary.v6.json")
     if os.path.exists(sp):
         with open(sp) as fh:
             return json.load(fh)
